@@ -94,7 +94,7 @@ def classify(exc):
     return "internal"
 
 
-def run_c(p, fam, src, witness):
+def run_c(p, fam, src, witness, budget=20):
     from ppci.api import get_arch, optimize
     from ppci.lang.c import c_to_ir, COptions
     from vf.core import cpu_limit, CpuTimeout, exc_key
@@ -103,12 +103,16 @@ def run_c(p, fam, src, witness):
         p.add()
         stage = "c_to_ir"
         try:
-            with cpu_limit(20):
+            with cpu_limit(budget):
                 m = c_to_ir(io.StringIO(src), arch, COptions())
                 stage = "optimize"
                 optimize(m, level=level)
         except CpuTimeout:
-            p.violation("c/%s/cpu-timeout" % stage, "%s of this C unit did not finish within 20 CPU-seconds: %s" % (stage, src[:160]), dict(witness, level=level))
+            if budget == 20:
+                # a watchdog expiry must reproduce before it is believed: run the unit again with three times the budget
+                p.count("watchdog_expiries_retried")
+                return run_c(p, fam, src, witness, budget=60)
+            p.violation("c/%s/cpu-timeout" % stage, "%s of this C unit did not finish within 60 CPU-seconds (second run; the first was stopped after 20): %s" % (stage, src[:160]), dict(witness, level=level))
             break
         except Exception as ex:  # noqa
             if classify(ex) == "diagnostic":
